@@ -22,7 +22,7 @@ pub static DEF: PropDef = PropDef {
     level: "exploration",
     engine: "compaction",
     rule: "one run = 1..2 real Compactor::run loops (own catalog client with its own 60 s cache, own store handle) on a generated dataset of 4..12 chunks at levels 0..2 over 1..3 hour buckets (rows inside retention), l0_merge_threshold 2..4, tiny target sizes, max_levels 1..4, gc grace 0..300 s, both catalog backends (two compactors only on the object-store backend), 400..1500 virtual seconds; per-run fault profile: fault-free / store request failures+delays / compactor crash+restart at any request / stalls longer than the 300 s lease TTL; every store request is a seeded scheduling point; distinct = distinct decision sequence; non-trivial = completed AND at least one merge was published AND (two compactors interleaved OR a fault/crash/stall fired)",
-    quick_runs: 1200,
+    quick_runs: 5000,
     thorough_runs: 30_000,
     run_cap_ms: 60_000,
     scen: scen_c03,
@@ -37,7 +37,7 @@ pub static DEF20: PropDef = PropDef {
     level: "exploration",
     engine: "compaction",
     rule: "one run = one real Compactor whose run_compaction_cycle is called N+2 times (N = initial chunk count, a proved bound: every merge replaces >= 2 chunks by 1) on a static generated dataset of 3..16 chunks with random level mixes (0..3), sizes, 1..3 hour buckets, l0_merge_threshold 2..5, target sizes from a few hundred bytes to huge, max_levels 1..4, both catalog backends, 60 virtual seconds between cycles, no faults; distinct = distinct (dataset, configuration) hash; non-trivial = completed AND at least one merge happened",
-    quick_runs: 1500,
+    quick_runs: 5000,
     thorough_runs: 40_000,
     run_cap_ms: 60_000,
     scen: scen_c20,
